@@ -1,4 +1,5 @@
 import AC.ProgramX
+import AC.ProgramTie
 /-! # C18 — program builders reject bad operands; program analyses match their definitions
 
 Model: `P.PX` (AC/ProgramX.lean): `padd/pdouble/pshift` (`Program.Add/Double/Shift` with Go `int`
@@ -229,5 +230,135 @@ example : runCalls [] [.add 0 0, .add 2 0, .shift 1 2, .double (-1)] =
     ([(0,0),(1,1),(2,2)],
      [(.ok 1, [(0,0)]), (.error (.outOfBounds 2), [(0,0)]), (.ok 3, [(0,0),(1,1),(2,2)]),
       (.error (.negative (-1)), [(0,0),(1,1),(2,2)])]) := by rfl
+
+/-! ## The same statements over the functions TRANSLATED from program.go
+
+`AC/Gen/ProgramFns.lean` is regenerated from the Go source on every run (translator:
+harness/cmd/extract/gotr.go); `AC/ProgramTie.lean` proves each translated function equal to the model
+function used above. The theorems below restate the property over the translated functions
+themselves (`toGs` embeds a program with natural operands; `none` would be a Go panic). -/
+section Src
+open AC.Gen.Program AC.GoPrim AC.ProgramTie
+
+/-- one builder call through the translated builders: receiver afterwards, returned index, error -/
+def srcStep (g : List GOp) : Call → Option (List GOp × Int × Option GoErr)
+  | .add i j => programAdd g i j
+  | .double i => programDouble g i
+  | .shift i s => programShift g i s
+
+/-- a call sequence through the translated builders (errors are returned to the caller and the
+    sequence goes on, as in the harness); `none` = some call panicked -/
+def srcBuild (g : List GOp) : List Call → Option (List GOp)
+  | [] => some g
+  | c :: cs => (srcStep g c).bind fun r => srcBuild r.1 cs
+
+/-- the translated `Add` never panics; it returns an error exactly for an operand that is negative
+    or larger than the program length and then leaves the receiver unchanged; otherwise it appends
+    the op and returns the new length -/
+theorem C18_src_add (p : List Op) (i j : Int) :
+    ∃ r, programAdd (toGs p) i j = some r ∧
+      (r.2.2.isSome ↔ (i < 0 ∨ i > (p.length : Int) ∨ j < 0 ∨ j > (p.length : Int))) ∧
+      (r.2.2.isSome → r.1 = toGs p) ∧
+      (r.2.2 = none → r.1 = toGs p ++ [⟨i, j⟩] ∧ r.2.1 = (p.length : Int) + 1) := by
+  refine ⟨_, add_tie p i j, ?_⟩
+  by_cases h : (0 ≤ i ∧ i ≤ (p.length : Int)) ∧ (0 ≤ j ∧ j ≤ (p.length : Int))
+  · rw [padd_ok p i j h.1 h.2]
+    refine ⟨by simp [addOut]; omega, by simp [addOut], fun _ => ?_⟩
+    simp [addOut, toG, Int.toNat_of_nonneg h.1.1, Int.toNat_of_nonneg h.2.1]
+  · obtain ⟨e, he⟩ := padd_err p i j h
+    rw [he]
+    refine ⟨by simp [addOut]; omega, by simp [addOut], by simp [addOut]⟩
+
+/-- the translated `Shift` by at least one never panics, fails exactly for an out-of-range operand
+    leaving the receiver unchanged, and otherwise appends `s` operations and returns `len + s` -/
+theorem C18_src_shift (p : List Op) (i : Int) (s : Nat) (hs : 1 ≤ s) :
+    ∃ r, programShift (toGs p) i s = some r ∧
+      (r.2.2.isSome ↔ (i < 0 ∨ i > (p.length : Int))) ∧
+      (r.2.2.isSome → r.1 = toGs p) ∧
+      (r.2.2 = none → r.1 = toGs (p ++ shiftOps p.length i.toNat s) ∧ r.1.length = p.length + s ∧
+        r.2.1 = ((p.length + s : Nat) : Int)) := by
+  refine ⟨_, shift_tie p i s, ?_⟩
+  by_cases h : 0 ≤ i ∧ i ≤ (p.length : Int)
+  · rw [pshift_ok s p i hs h.1 h.2]
+    refine ⟨by simp [shiftOut]; omega, by simp [shiftOut], fun _ => ?_⟩
+    simp [shiftOut, shiftOps_length]
+  · obtain ⟨s, rfl⟩ : ∃ s', s = s' + 1 := ⟨s - 1, by omega⟩
+    obtain ⟨e, he⟩ := pshift_err s p i h
+    rw [he]
+    refine ⟨by simp [shiftOut]; omega, by simp [shiftOut], by simp [shiftOut]⟩
+
+theorem srcStep_tie (p : List Op) (c : Call) :
+    ∃ r, srcStep (toGs p) c = some r ∧ r.1 = toGs (step p c).1 := by
+  cases c with
+  | add i j =>
+    refine ⟨_, add_tie p i j, ?_⟩
+    simp only [step]
+    cases padd p i j with
+    | ok r => rfl
+    | error e => rfl
+  | double i =>
+    refine ⟨_, double_tie p i, ?_⟩
+    simp only [step]
+    cases pdouble p i with
+    | ok r => rfl
+    | error e => rfl
+  | shift i s =>
+    refine ⟨_, shift_tie p i s, ?_⟩
+    simp only [step, shiftOut]
+    cases (pshift p i s).2 <;> rfl
+
+/-- any call sequence through the translated builders never panics and leaves the program the
+    model's `build` leaves -/
+theorem C18_src_build : ∀ (cs : List Call) (p : List Op),
+    srcBuild (toGs p) cs = some (toGs (build p cs)) := by
+  intro cs
+  induction cs with
+  | nil => intro p; rfl
+  | cons c cs ih =>
+    intro p
+    obtain ⟨r, hr, hr1⟩ := srcStep_tie p c
+    simp only [srcBuild, hr, Option.bind, hr1, ih]
+    simp [build, runCalls]
+
+/-- every program built through the translated builders evaluates (translated `Evaluate`) without
+    a panic to a chain one longer than the program, and the translated `Count` returns a number of
+    doubles and of adds whose sum is the program length -/
+theorem C18_src_evaluate_built (cs : List Call) :
+    ∃ g c d a, srcBuild [] cs = some g ∧ programEvaluate g = some c ∧
+      c.length = g.length + 1 ∧ programCount g = some (d, a) ∧ d + a = (g.length : Int) := by
+  obtain ⟨c, h1, h2⟩ := C18_evaluate_built cs
+  refine ⟨_, c, _, _, C18_src_build cs [], ?_, ?_, count_tie _, ?_⟩
+  · rw [evaluate_tie]; exact h1
+  · simpa using h2
+  · have := (C18_count_sum (build [] cs)).1
+    simp only [toGs_length, Int.ofNat_eq_natCast]
+    omega
+
+/-- translated `ReadCounts` of an in-range program: no panic, entry `i` is the number of operations
+    that use element `i` -/
+theorem C18_src_readCounts (p : List Op) (hp : InRange p) :
+    ∃ r : List Nat, programReadCounts (toGs p) = some (ints r) ∧ r.length = p.length + 1 ∧
+      ∀ i, r.getD i 0 = p.countP (uses i) := by
+  obtain ⟨r, h1, h2, h3⟩ := C18_readCounts_inRange p hp
+  exact ⟨r, by rw [readCounts_tie, h1]; rfl, h2, h3⟩
+
+/-- translated `Dependencies` of an in-range program: no panic, bit `j` of bitset `k` is set exactly
+    when `j` reaches `k` in the reflexive-transitive closure of the operand relation -/
+theorem C18_src_deps (p : List Op) (hp : InRange p) :
+    ∃ ds : List Nat, programDependencies (toGs p) = some (ints ds) ∧ ds.length = p.length + 1 ∧
+      ∀ k, k ≤ p.length → ∀ j, ((ds.getD k 0).testBit j = true ↔ Reach p j k) := by
+  obtain ⟨ds, h1, h2, h3⟩ := C18_deps_spec p hp
+  exact ⟨ds, by rw [dependencies_tie, h1]; rfl, h2, h3⟩
+
+/-- non-vacuity: the translated builders on a concrete sequence (accepted add, rejected add,
+    shift by two, rejected double) and the translated analyses of the result -/
+example : srcBuild [] [.add 0 0, .add 2 0, .shift 1 2, .double (-1)] =
+    some [⟨0, 0⟩, ⟨1, 1⟩, ⟨2, 2⟩] := by decide
+example : programAdd [⟨0, 0⟩] 2 0 = some ([⟨0, 0⟩], 0, some ("index %d out of bounds", [2])) := by decide
+example : programEvaluate [⟨0, 0⟩, ⟨1, 0⟩, ⟨2, 2⟩] = some [1, 2, 3, 6] := by decide
+example : programReadCounts [⟨0, 0⟩, ⟨1, 0⟩, ⟨2, 2⟩] = some [2, 1, 1, 0] := by decide
+example : programDependencies [⟨0, 0⟩, ⟨1, 0⟩, ⟨2, 2⟩] = some [1, 3, 7, 15] := by decide
+example : programEvaluate [⟨1, 0⟩] = none := by decide
+end Src
 
 end AC.Props.C18
